@@ -359,7 +359,42 @@ class Repo:
         self._mro_cache[key] = out
         return out
 
+    def private_sentinels(self):
+        """module-private names bound once to a fresh ``object()``: markers for "no value given".
+        Modelling assumption (stated in the evidence): a value that enters through a parameter
+        is never such an object -- nothing outside the module can name it"""
+        if getattr(self, '_sentinels', None) is None:
+            out = set()
+            for mod, info in self.modules.items():
+                tree = info['tree']
+                stores = {}
+                for n in ast.walk(tree):
+                    if isinstance(n, ast.Name) and isinstance(n.ctx, (ast.Store, ast.Del)):
+                        stores[n.id] = stores.get(n.id, 0) + 1
+                for st in tree.body:
+                    if isinstance(st, ast.Assign) and len(st.targets) == 1 and isinstance(st.targets[0], ast.Name) and st.targets[0].id.startswith('_') \
+                            and isinstance(st.value, ast.Call) and isinstance(st.value.func, ast.Name) and st.value.func.id == 'object' and not st.value.args \
+                            and stores.get(st.targets[0].id) == 1:
+                        out.add(st.targets[0].id)
+            self._sentinels = out
+        return self._sentinels
+
     def walker(self, inline_depth=0, max_paths=4096, recv_types=None, fold=None, tag=None, keep=None, split_ifexp=False):
+        sent = self.private_sentinels()
+        if sent:
+            inner = fold
+
+            def fold(t, _inner=inner):
+                r = _inner(t) if _inner is not None else None
+                if r is not None:
+                    return r
+                # <parameter> is <private sentinel>: never
+                if isinstance(t, ast.Compare) and len(t.ops) == 1 and isinstance(t.ops[0], (ast.Is, ast.IsNot)):
+                    a, b = t.left, t.comparators[0]
+                    for x, y in ((a, b), (b, a)):
+                        if isinstance(x, ast.Name) and x.id in sent and isinstance(y, ast.Name) and y.id not in sent and '@' not in y.id and not y.id.startswith('<'):
+                            return isinstance(t.ops[0], ast.IsNot)
+                return None
         w = Walker(self.resolver(recv_types), max_paths=max_paths, inline_depth=inline_depth, fold=fold, tag=tag, keep=keep)
         w.split_ifexp = split_ifexp
         return w
